@@ -3,22 +3,42 @@
 COMPONENTS = {
     "mailbox": {
         "coq_run_module": "Mailbox.MbRun",
-        "accessors": {"internal/mailbox/xv_mb_verif.go": "acc/mailbox/xv_mb_verif.go"},
+        "accessors": {"internal/mailbox/xv_mb_verif.go": "acc/mailbox/xv_mb_verif.go",
+                      "internal/mailbox/xv_mb_owner_verif.go": "acc/mailbox/xv_mb_owner_verif.go",
+                      "internal/queues/xv_ring_verif.go": "acc/queues/xv_ring_verif.go"},
         "instrument": {"profile": "mailbox", "files": ["internal/mailbox/unbounded_mailbox.go"]},
         "what": "real UnboundedMailbox, instrumented from the current source (a scheduling point before every atomic op, queue op, handler call, go statement), run under the controlled scheduler; every step's (label, status, paused, num, systemNum, |sysq|, |userq|, |log|) replayed on Mailbox/MbModel.v",
+    },
+    "mbfine": {
+        "coq_run_module": "Mailbox.MbFineRun",
+        "cmd": "mailbox",
+        "args": {"quick": ["-fine"], "thorough": ["-fine"]},
+        "accessors": {"internal/mailbox/xv_mb_verif.go": "acc/mailbox/xv_mb_verif.go",
+                      "internal/mailbox/xv_mb_owner_verif.go": "acc/mailbox/xv_mb_owner_verif.go",
+                      "internal/queues/xv_ring_verif.go": "acc/queues/xv_ring_verif.go"},
+        "instrument": {"profile": "mbring", "files": ["internal/mailbox/unbounded_mailbox.go", "internal/queues/ring.go"]},
+        "what": "real UnboundedMailbox ON TOP OF the real RingQueue, both instrumented from the current source (a scheduling point before every atomic op of either file, before every q.lock.Lock() - enabled only while the mutex is free -, before the handler call, at every go statement), run under the controlled scheduler; every step's (label, status, paused, num, systemNum, |log|, and for both rings head, tail, mod, len, lock bit, slot[head], slot[tail]) and the final buffers replayed on Mailbox/MbFine.v",
     },
 }
 
 PROPERTIES = {
     "C01": {
-        "components": ["mailbox"],
+        "components": ["mailbox", "mbfine"],
+        "coq_files": ["Properties/C01.v", "Properties/C01_fine.v"],
+        # translator: the source-level inventory of synchronisation constructs of ring.go + unbounded_mailbox.go
+        # (coq/Generated/MbSyncOps.v), compared with the model's table by the Example C01_fine_sync_inventory
+        "pregen": ["bin/gen_syncops"],
         "rule": ("schedules of the real mailbox under the controlled scheduler: depth-first enumeration with a preemption bound over 11 hand-picked "
                  "configurations (senders of user/system messages, Pause/Resume callers, handlers that send to / pause / resume their own mailbox) "
-                 "plus seeded random configurations (2..7 operations, ring sizes 1,2,4,8) under random and sticky schedulers; one case = one complete "
-                 "schedule, compared step by step with the model. distinct = distinct (configuration, schedule); non-trivial = at least two context switches"),
+                 "plus seeded random configurations (2..7 operations, ring sizes 1,2,4,8) under random and sticky schedulers, plus large backlogs; one case = one complete "
+                 "schedule, compared step by step with the model. Run twice: component mailbox = queue operations atomic (Mailbox/MbModel.v); component mbfine = "
+                 "ring.go instrumented as well (scheduling points before q.lock.Lock(), before the atomic add / load of len; 15 configurations incl. growth at every push, "
+                 "growth while the cursors are wrapped, initial size 3), every step compared with Mailbox/MbFine.v on both rings' head/tail/mod/len/lock bit/slot[head]/slot[tail] "
+                 "and on the full buffers at the end. distinct = distinct (configuration, schedule); non-trivial = at least two context switches"),
         "modelled_not_verified": [
-            "M1: sync/atomic operations are sequentially consistent; M3: goroutine scheduling = arbitrary interleaving of the instrumented atomic steps",
-            "M4: RingQueue Push/Pop are single atomic steps (every access is under the queue's mutex; sequential correctness is C02's theorem)",
+            "M1: sync/atomic operations are sequentially consistent and sync.Mutex gives mutual exclusion; non-atomic accesses to data owned by the mutex holder are merged with the holder's adjacent step; M3: goroutine scheduling = arbitrary interleaving of the instrumented steps",
+            "M4 (RingQueue Push/Pop atomic) is NO LONGER assumed: it is the theorem C01_fine_refines_coarse about Mailbox/MbFine.v, where ring.go is modelled step by step; what remains assumed about the queue is M10 (int64 cursors do not wrap) and that a slot holds what was stored in it",
+            "IsPaused (a read-only observer of the paused word) and RingQueue.PopMany (no caller) are outside the model; the inventory check lists them as such",
             "fair scheduling by the Go runtime (an enabled goroutine eventually runs) for 'eventually handled'",
         ],
     },
@@ -26,21 +46,37 @@ PROPERTIES = {
 
 META = {
     "C01": {
-        "text": "Inductive invariants over ALL interleavings of ANY number of sender / Pause / Resume threads of a micro-step Gallina model of the mailbox handshake (single consumer, exactly-once accounting, no lost wake-up, terminal-state theorem, bounded work when nothing may be processed). The model is tied to the code by lock-step replay: the real UnboundedMailbox is re-instrumented from the current source on every run, driven by a controlled scheduler (DFS with preemption bound + random), and every atomic step's label and projected shared state must equal the model's.",
+        "text": ("Inductive invariants over ALL interleavings of ANY number of sender / Pause / Resume threads of a micro-step Gallina model of the mailbox handshake (single consumer, exactly-once accounting, "
+                 "no lost wake-up, terminal-state theorem, bounded work when nothing may be processed). Second layer (Properties/C01_fine.v, 16 theorems): the ring queue internal/queues/ring.go is INSIDE the model "
+                 "(Mailbox/MbFine.v: mutex, atomic len, head/tail/mod arithmetic, growth with the rotated copy; Pop's emptiness check outside the mutex), every execution of that machine - all initial sizes, "
+                 "all populations, all schedules incl. preemptions inside Push/Pop - is proved to be simulated by the coarse machine (forward simulation with stuttering, C01_fine_refines_coarse), so the former "
+                 "assumption 'queue operations are atomic' is a theorem under the single-consumer discipline the mailbox itself establishes; consequences stated on the fine machine: one owner also inside Pop, "
+                 "no crash (Pop never hands out a nil slot, no zero modulus), ring representation invariant + mutual exclusion at every micro-step, no deadlock on the queue mutexes, exactly once, no lost wake-up, "
+                 "terminal theorem, step bound 192(n+1)^2+3, no spin, every execution can finish. The models are tied to the code by lock-step replay: the real UnboundedMailbox (and, for the fine model, the real "
+                 "RingQueue under it) is re-instrumented from the current source on every run, driven by a controlled scheduler (DFS with preemption bound + random), and every step's label and projected shared "
+                 "state must equal the model's. A translator lists every synchronisation construct of the two source files; the list must equal the model's table (C01_fine_sync_inventory)."),
         "design_ref": "DESIGN.md section 4 C01",
-        "note": "Trusted: Coq kernel; extraction; AST instrumenter + controlled scheduler (harness/instr, harness/vsched); sequentially consistent atomics (M1), interleaving semantics (M3), linearizable ring queue (M4); fairness of the Go scheduler for liveness.",
-        "technique": "Coq proof (inductive invariants of a small-step concurrent machine, all thread populations and schedules) + lock-step correspondence against the instrumented real mailbox under a controlled scheduler",
+        "note": ("Trusted: Coq kernel; extraction; AST instrumenter + controlled scheduler (harness/instr incl. profile_mbring.go, harness/vsched); the translator harness/cmd/syncops; sequentially consistent atomics and "
+                 "mutual exclusion of sync.Mutex (M1), interleaving semantics (M3); fairness of the Go scheduler for liveness. No longer trusted: linearizability of the ring queue (M4) - proved, and refuted without "
+                 "the single-consumer discipline (C02_ring_two_consumers_refuted)."),
+        "technique": "Coq proof (inductive invariants of a small-step concurrent machine, all thread populations and schedules; forward simulation fine -> coarse) + lock-step correspondence against the instrumented real mailbox and ring queue under a controlled scheduler + source-level inventory of synchronisation operations",
     },
 }
 
-# the mailbox-ordering part of C02 (per-kind FIFO in push order, system-before-user, kill overtakes at most one)
+# the mailbox-ordering part of C02 (per-kind FIFO in push order, system-before-user, kill overtakes at most one).
+# Its lock-step runs are those of the FINE machine (component mbfine: mailbox + ring queue, both instrumented); the
+# theorems about the coarse machine apply to it through C01_fine_refines_coarse (Properties/C01_fine.v), and the coarse
+# machine's own lock-step runs are C01's component mailbox.
 PROPERTIES["C02"] = {
-    "components": ["mailbox"],
+    "components": ["mbfine"],
     "coq_files": ["Properties/C02_mailbox.v"],
-    "rule": "mailbox part: the C01 lock-step traces (monitors fifo-user / fifo-system evaluate per-kind FIFO in push order on the real mailbox)",
-    "modelled_not_verified": ["mailbox part: M1, M3, M4 as for C01"],
+    "rule": "mailbox part: the lock-step traces of component mbfine (mailbox + ring queue instrumented; monitors fifo-user / fifo-system evaluate per-kind FIFO in the order of the Pushes' critical sections, c02-user-overtakes-system the priority of system messages, on the real code)",
+    "modelled_not_verified": ["mailbox part: M1, M3 as for C01 (M4 is proved: C01_fine_refines_coarse)"],
 }
 META["C02"] = {
-    "text": "mailbox part: for every thread population and schedule of the micro-step mailbox model, messages of one kind are handled exactly in push order, a user message is popped only after the system queue was observed empty in the same iteration, and after a system message is pushed at most ONE user message is popped before it (the exact overtaking bound, with a witness schedule).",
-    "design_ref": "DESIGN.md section 4 C02", "note": "as C01", "technique": "Coq proof over the C01 micro-step model + the C01 lock-step correspondence",
+    "text": ("mailbox part: for every thread population and schedule of the micro-step mailbox model, messages of one kind are handled exactly in push order, a user message is popped only after the system queue was "
+             "observed empty in the same iteration, and after a system message is pushed at most ONE user message is popped before it (the exact overtaking bound, with a witness schedule); the same FIFO statement "
+             "on the fine machine with ring.go inside the model, for every initial size and every growth (C02_fine_fifo_prefix); and the refutation of queue linearizability without the single-consumer discipline "
+             "(C02_ring_two_consumers_refuted: two overlapping Pops hand out a nil slot and leave len = -1)."),
+    "design_ref": "DESIGN.md section 4 C02", "note": "as C01", "technique": "Coq proof over the C01 micro-step models + the C01 lock-step correspondence",
 }
